@@ -2,6 +2,7 @@
 import Lean.Data.Json
 import Simpleline.Model.Paging
 import Simpleline.Model.KeyPattern
+import Simpleline.Model.Column
 
 open Lean Simpleline
 
@@ -72,6 +73,7 @@ partial def tree (j : Json) : Except String Wd := do
   | k :: rest =>
     match (← k.getStr?), rest with
     | "text", [t] => pure (.text {} (← str t))
+    | "entry", [t, v] => pure (.text {} (entryText (← str t) (← optStr v)))        -- EntryWidget is a TextWidget of `_create_text(title, value)`
     | "sep", [n] => do
       let n ← nat n
       if n = 0 then throw "sep 0" else pure (.sep {} n)
